@@ -13,13 +13,13 @@ INFO = {
         "scheduler/base.py:Scheduler.aio_submit (retry loop)", "scheduler/base.py:Job.dependencychanged",
     ],
     "bounds": {
-        "quick": {"jobs": "<=3", "tokens": "1 (in-process: symbolic counts; file: enumerated counts, total<=2)", "schedule_choice_points": 6},
+        "quick": {"fault_clause": "two schedulers on one token directory (total 1, requests 1+1); the first is killed after 3/6/8/10/12/14 delivered events (one shard each; thorough: every point 0..16; which events: symbolic choices), its job process lives on and ends by itself; the survivor must reclaim and run", "jobs": "<=3", "tokens": "1 (in-process: symbolic counts; file: enumerated counts, total<=2)", "schedule_choice_points": 6},
         "thorough": {"jobs": "<=4", "tokens": "1 (file: total<=3)", "schedule_choice_points": 10},
     },
     "stubs": schedlib.STUBS + ["ipc.ipcom().fswatch -> recorded; threading.Thread in tokens -> external event"],
     "symbolic_data": True,
     "assumptions": ["1 <= request <= total", "exit codes symbolic (success, failure)", "aborted starts are reachable through a job lock / token contention between two jobs of the same scheduler"],
-    "outside": schedlib.OUTSIDE + ["death of a scheduler process while its jobs hold tokens, and reclaiming by a second instance through TokenFile.watch / watchdog events: not modelled in this round (clause not claimed)", "partially written token file observed by a watcher (needs two processes)"],
+    "outside": schedlib.OUTSIDE + ["partially written token file observed by a watcher (statement-level preemption inside TokenFile.create)", "more than two scheduler processes"],
 }
 
 
@@ -74,11 +74,66 @@ def release(
     return fin(ok)
 
 
+def multi_kill(
+    c0: int, c1: int, rev: bool,
+    s0: int, s1: int, s2: int, s3: int, s4: int, s5: int, s6: int, s7: int,
+) -> bool:
+    """Two scheduler processes share the token directory; the first one is
+    killed after an enumerated number of events while its job may hold the
+    token; its job ends by itself. The survivor reclaims the token (watcher
+    thread on the foreign token file) and runs its own job; at quiescence the
+    token is idle at full capacity and no token file is left.
+
+    post: _
+    """
+    total = SHARD["total"]
+    A, B = schedlib.duo(SHARD, c0, c1, rev, [s0, s1, s2, s3, s4, s5, s6, s7], kill_at=SHARD.get("kill_at"))
+    ok = True
+    if SHARD.get("kill_at") is None:
+        # no death: both processes must see an idle token at full capacity
+        if A.token.available != total:
+            rt.note(f"FAIL: idle token shows {A.token.available} of {total} in process 1")
+            ok = False
+        ja = A.jobs[0]
+        if ja is None or ja._future is None or not ja._future.task.done():
+            rt.note("FAIL: the job of process 1 is not final")
+            ok = False
+    driver = B if SHARD.get("kill_at") is not None else A  # the scenario whose run() drove the world
+    if driver.hung or driver.deadlock:
+        rt.note("FAIL: the surviving scheduler does not come to an end", driver.deadlock)
+        ok = False
+    job = B.jobs[0]
+    if job is None or job._future is None or not job._future.task.done():
+        rt.note(f"FAIL: the survivor's job is left in state {job.state if job else None} although its request fits")
+        ok = False
+    left = [p.name for p in B.token.path.glob("*.token")]
+    if left:
+        rt.note("FAIL: token files left", left)
+        ok = False
+    if B.token.available != total:
+        rt.note(f"FAIL: idle token shows {B.token.available} of {total} in the surviving process")
+        ok = False
+    if A.violations or B.violations:
+        rt.note("FAIL:", A.violations + B.violations)
+        ok = False
+    B.finish()
+    rt.scratch_cleanup()
+    return fin(ok)
+
+
 def conditions(tier):
     from xv.harness.c08_capacity import conditions as c08
 
     conds = []
+    for total, reqs in (((1, [1, 1]),) if tier == "quick" else ((1, [1, 1]), (2, [2, 1]), (3, [2, 2]))):
+        for k in ((3, 6, 8, 10, 12, 14) if tier == "quick" else range(0, 17)):
+            conds.append({"name": f"multi-kill/t{total}r{''.join(map(str, reqs))}/kill{k}", "func": "multi_kill", "shard": {"total": total, "reqs": reqs, "K": 2 if tier == "quick" else 4, "K1": 2 if tier == "quick" else 3, "kill_at": k}, "timeout": 900 if tier == "quick" else 3000})
+    for total, reqs in (((1, [1, 1]), (3, [2, 2])) if tier == "quick" else ((1, [1, 1]), (2, [2, 1]), (3, [2, 2]), (2, [1, 1]))):
+        c = {"name": f"multi/t{total}r{''.join(map(str, reqs))}", "func": "multi_kill", "shard": {"total": total, "reqs": reqs, "K": 4 if tier == "quick" else 6}, "timeout": 900 if tier == "quick" else 3000}
+        conds.extend(schedlib.with_prefixes(c, 2))
     for c in c08(tier):
+        if c["shard"].get("multi"):
+            continue
         c = dict(c)
         c["func"] = "release"
         c["name"] = c["name"].replace("process/", "release-process/").replace("file/", "release-file/").replace("two-tokens/", "release-two-tokens/")
